@@ -16,7 +16,7 @@ from .. import oracles as orc
 from ..gen import J, JI
 
 PROP = "C04"
-HOSTILE = ('scale',)
+HOSTILE = ('scale', 'special')
 MONITORS = ("WF", "CACHE", "SPEC", "DENS")
 REQUIRED_MONITORS = ("CACHE",)
 ANCHORS = [("factor.py", "OneRankFactor._multiply_with_measure", "# Sherman morrison"),
